@@ -58,13 +58,13 @@ func (g *GTPv1U) DecodeFromBytes(data []byte, df gopacket.DecodeFeedback) error 
 	g.ExtensionHeaderFlag = ((data[0] >> 2) & 0x01) == 1
 	g.MessageType = data[1]
 	g.MessageLength = binary.BigEndian.Uint16(data[2:4])
-	pLen := 8 + g.MessageLength
-	if uint16(dLen) < pLen {
+	pLen := 8 + int(g.MessageLength)
+	if dLen < pLen {
 		return fmt.Errorf("GTP packet too small: %d bytes", dLen)
 	}
 	//  Field used to multiplex different connections in the same GTP tunnel.
 	g.TEID = binary.BigEndian.Uint32(data[4:8])
-	cIndex := uint16(hLen)
+	cIndex := hLen
 	if g.SequenceNumberFlag || g.NPDUFlag || g.ExtensionHeaderFlag {
 		hLen += 4
 		cIndex += 4
@@ -80,7 +80,7 @@ func (g *GTPv1U) DecodeFromBytes(data []byte, df gopacket.DecodeFeedback) error 
 		if g.ExtensionHeaderFlag {
 			extensionFlag := true
 			for extensionFlag {
-				if int(cIndex) >= dLen {
+				if cIndex >= dLen {
 					return fmt.Errorf("GTP packet too small: %d bytes", dLen)
 				}
 				extensionType := uint8(data[cIndex-1])
@@ -89,8 +89,8 @@ func (g *GTPv1U) DecodeFromBytes(data []byte, df gopacket.DecodeFeedback) error 
 					return fmt.Errorf("GTP packet with invalid extension header")
 				}
 				// extensionLength is in 4-octet units
-				lIndex := cIndex + (uint16(extensionLength) * 4)
-				if uint16(dLen) < lIndex {
+				lIndex := cIndex + int(extensionLength)*4
+				if dLen < lIndex {
 					return fmt.Errorf("GTP packet with small extension header: %d bytes", dLen)
 				}
 				content := data[cIndex+1 : lIndex-1]
